@@ -22,6 +22,27 @@ pub struct CostModel {
     cost_aggregation: CostAggregation,
 }
 
+#[cfg(kani)]
+impl CostModel {
+    /// verification only: builds a cost model directly from its vectorized parts, skipping the
+    /// by-name lookups of [`CostModel::new`]. the methods under verification are the real ones.
+    pub fn verif_from_parts(
+        feature_indices: Vec<(String, usize)>,
+        weights: Vec<f64>,
+        vehicle_rates: Vec<VehicleCostRate>,
+        network_rates: Vec<NetworkCostRate>,
+        cost_aggregation: CostAggregation,
+    ) -> CostModel {
+        CostModel {
+            feature_indices,
+            weights,
+            vehicle_rates,
+            network_rates,
+            cost_aggregation,
+        }
+    }
+}
+
 impl CostModel {
     const VEHICLE_RATES: &'static str = "vehicle_rates";
     const NETWORK_RATES: &'static str = "network_rates";
